@@ -55,11 +55,11 @@ def prior_fraction(x):
 
 # ------------------------------------------------------------------ instances
 def make_instance(rng, nind=1, trios=(), max_reads=6, max_cols=6, quals=QUALS, prior_mode=None, holes=True,
-                  uncovered=False, recomb_choices=(0, 1, 3, 10, 20, 30), blank_ok=True):
+                  uncovered=False, recomb_choices=(0, 1, 3, 10, 20, 30), blank_ok=True, min_reads=1, min_cols=2):
     """A read matrix over columns 0..ncols-1: every read covers >= 2 columns (a C++ assert requires it),
     reads sorted by first column; priors per individual and column; one recombination cost per column."""
-    ncols = rng.randint(2, max_cols)
-    nreads = rng.randint(1, max_reads)
+    ncols = rng.randint(min_cols, max_cols)
+    nreads = rng.randint(min_reads, max_reads)
     reads = []
     for _ in range(nreads):
         a = rng.randrange(0, ncols - 1)
@@ -93,6 +93,12 @@ def make_instance(rng, nind=1, trios=(), max_reads=6, max_cols=6, quals=QUALS, p
                 a = rng.randint(1, 14)
                 b = rng.randint(1, 15 - a)
                 row.append([a / 16.0, b / 16.0, (16 - a - b) / 16.0])
+            elif pm == "zero":
+                # hard priors: one or two genotypes excluded (never all three)
+                t = [rng.choice([0.0, 0.5, 1.0]) for _ in range(3)]
+                if not any(t):
+                    t[rng.randrange(3)] = 1.0
+                row.append(t)
             else:
                 # not normalised, one small entry (the code normalises the assignment weights itself)
                 row.append([rng.choice([0.001, 0.5, 0.9]), rng.choice([0.01, 0.3]), rng.choice([0.001, 0.2, 0.7])])
@@ -151,6 +157,54 @@ def make_profile_instance(rng, nind=1, trios=(), min_cols=9, max_cols=20, max_re
         priors.append(row)
     return {"ncols": n, "nind": nind, "trios": [list(t) for t in trios], "reads": reads, "priors": priors,
             "recomb": [rng.choice(recomb_choices) for _ in range(n)]}
+
+
+def permute_individuals(rng, inst):
+    """relabel the individuals by a random permutation (the child need not be the last individual, the father not
+    the first): trios, read samples and prior rows are mapped consistently"""
+    n = inst["nind"]
+    perm = list(range(n))
+    rng.shuffle(perm)
+    out = dict(inst)
+    out["trios"] = [[perm[f], perm[m], perm[c]] for f, m, c in inst["trios"]]
+    out["reads"] = [dict(r, sample=perm[r["sample"]]) for r in inst["reads"]]
+    pri = [None] * n
+    for i in range(n):
+        pri[perm[i]] = inst["priors"][i]
+    out["priors"] = pri
+    return out
+
+
+def shape_tallies(inst):
+    """features of an instance for the coverage tallies"""
+    import math
+    cols = active_columns(inst)
+    cov = [len(c) for c in cols]
+    starts = [r["vars"][0][0] for r in inst["reads"]]
+    t = {"k=%d" % math.isqrt(inst["ncols"]): 1, "maxcov=%d" % (max(cov) if cov else 0): 1}
+    if any(c == 0 for c in cov):
+        t["has-uncovered-column"] = 1
+    if any(e[2] is None for c in cols for e in c):
+        t["has-gap-entry"] = 1
+    if len(set(starts)) < len(starts):
+        t["has-equal-start-reads"] = 1
+    if inst["nind"] > 1 and len({r["sample"] for r in inst["reads"]}) < inst["nind"]:
+        t["has-individual-without-reads"] = 1
+    if inst["trios"] and any(c != max(f, m, c) or f > m for f, m, c in inst["trios"]):
+        t["pedigree-roles-permuted"] = 1
+    if any(v[2] >= 40 for r in inst["reads"] for v in r["vars"]):
+        t["has-quality>=40"] = 1
+    if any(v[2] >= 256 for r in inst["reads"] for v in r["vars"]):
+        t["has-quality>=256"] = 1
+    if any(x == 0 for row in inst["priors"] for tr in row for x in tr):
+        t["has-zero-prior"] = 1
+    if any(rc >= 40 for rc in inst["recomb"]):
+        t["has-recombcost>=40"] = 1
+    if inst.get("positions_none"):
+        t["positions=None"] = 1
+    if not inst["reads"]:
+        t["empty-readset"] = 1
+    return t
 
 
 def checkpoint_profile(inst):
@@ -213,7 +267,7 @@ def run_one(inst):
         ped.add_individual(nm, [Genotype([]) for _ in range(n)], [PhredGenotypeLikelihoods(list(p)) for p in inst["priors"][i]])
     for f, m, c in inst["trios"]:
         ped.add_relationship(names[f], names[m], names[c])
-    positions = [(c + 1) * 10 for c in range(n)]
+    positions = None if inst.get("positions_none") else [(c + 1) * 10 for c in range(n)]
     t = GenotypeDPTable(ids, rs, list(inst["recomb"]), ped, positions)
     out = []
     for nm in names:
@@ -222,6 +276,12 @@ def run_one(inst):
             gl = t.get_genotype_likelihoods(nm, c)
             row.append([float(x).hex() for x in gl])
         out.append(row)
+    # the table is queried a second time, in reverse order: the answers must not depend on the query history
+    for i in reversed(range(len(names))):
+        for c in reversed(range(n)):
+            again = [float(x).hex() for x in t.get_genotype_likelihoods(names[i], c)]
+            if again != out[i][c]:
+                raise RuntimeError("get_genotype_likelihoods depends on the query history: %r then %r" % (out[i][c], again))
     return out
 insts = json.load(sys.stdin)
 for k, inst in enumerate(insts):
@@ -500,11 +560,11 @@ def inst_term(inst):
         pri = coq_list([coq_list([qlit(prior_fraction(x)) for x in inst["priors"][ind][c]]) for ind in range(inst["nind"])])
         cterms.append(f"Column {coq_list(ents)} {pri} {qlit(recomb_prob(inst['recomb'][c]))}")
     trios = coq_list([f"({f}, {m}, {ch})" for f, m, ch in inst["trios"]])
-    return f"(Inst (Ped {inst['nind']} {trios}) {coq_list(cterms)})"
+    return f"(@Inst bigQ (Ped {inst['nind']} {trios}) {coq_list(cterms)})"
 
 
 def impl_term(res):
     """implementation output [individual][column][genotype] (hex doubles) -> [column][individual][genotype] of Q"""
     nind, ncols = len(res), len(res[0]) if res else 0
-    return coq_list([coq_list([coq_list([qraw(hex_to_fraction(h)) for h in res[ind][c]]) for ind in range(nind)])
-                     for c in range(ncols)])
+    return "(" + coq_list([coq_list([coq_list([qraw(hex_to_fraction(h)) for h in res[ind][c]]) for ind in range(nind)])
+                           for c in range(ncols)]) + " : seq (seq (seq Q)))"
